@@ -85,8 +85,11 @@ def run(repo: Repo, rep: Report) -> None:
             rep.ob("C03.a-list-walk-terminates", mod, q, "while %s: ... %s = rdf:rest of %s" % (norm(loop.test), cur, cur), why is not None,
                    why or "no counter, visited-set guard, link removal or guarded validator: serialisation never ends on a cyclic rdf:rest chain", node=loop)
 
-    # ------------------------------------------------------------------ (b)
-    rep.rule("C03.b-escape-tables-agree",
+    escape_table_rules(repo, rep, "C03.b-escape-tables-agree")
+
+
+def escape_table_rules(repo: Repo, rep: Report, RULE: str) -> None:
+    rep.rule(RULE,
              "string escape chains of the N-Triples writer (nt._quote_encode) and the Turtle-family writer "
              "(Literal._quote_encode) replace the backslash first, cover the raw-forbidden characters of their quoting "
              "form, and emit only escapes that the readers' table (compat._string_escape_map + the ECHAR class of "
@@ -113,9 +116,9 @@ def run(repo: Repo, rep: Report) -> None:
     if rq is None:
         raise AnalysisError("ntriples.r_quot not found")
     rep.info["reader_echar_class"] = sorted(echars)
-    rep.ob("C03.b-escape-tables-agree", compat, "_turtle_escape_pattern", "ECHAR class == keys of _string_escape_map", echars == set(emap),
+    rep.ob(RULE, compat, "_turtle_escape_pattern", "ECHAR class == keys of _string_escape_map", echars == set(emap),
            "regex class and decode table agree" if echars == set(emap) else "class %s vs table keys %s" % (sorted(echars), sorted(emap)), node=compat.tree)
-    rep.ob("C03.b-escape-tables-agree", ntp, "r_quot", "validating N-Triples ECHAR class == decode table keys", rq == set(emap),
+    rep.ob(RULE, ntp, "r_quot", "validating N-Triples ECHAR class == decode table keys", rq == set(emap),
            "agree" if rq == set(emap) else "r_quot class %s vs table keys %s" % (sorted(rq), sorted(emap)), node=ntp.tree)
 
     def check_chain(mod, q, chain: list[tuple[str, str]], must: set[str], form: str, node):
@@ -125,11 +128,11 @@ def run(repo: Repo, rep: Report) -> None:
         intro = [i for i, (a, b) in enumerate(eff) if "\\" in b]
         bs = [i for i, (a, b) in enumerate(eff) if a == "\\"]
         ok_first = bool(bs) and (not intro or bs[0] == min(intro))
-        rep.ob("C03.b-escape-tables-agree", mod, q, "%s: backslash escaped first (%s)" % (form, [a for a, _ in eff]), ok_first,
+        rep.ob(RULE, mod, q, "%s: backslash escaped first (%s)" % (form, [a for a, _ in eff]), ok_first,
                "the backslash is doubled before any escape is introduced" if ok_first else
                "an escape is introduced before the backslash is doubled (or the backslash is never escaped): escapes get double-escaped / raw backslashes corrupt the string", node=node)
         missing = must - set(srcs)
-        rep.ob("C03.b-escape-tables-agree", mod, q, "%s: covers %s" % (form, sorted(must)), not missing,
+        rep.ob(RULE, mod, q, "%s: covers %s" % (form, sorted(must)), not missing,
                "all raw-forbidden characters escaped" if not missing else "character(s) %r are written raw although the grammar forbids them in this quoting form" % sorted(missing), node=node)
         for a, b in eff:
             if a == "\\":
@@ -140,7 +143,7 @@ def run(repo: Repo, rep: Report) -> None:
                 # multi-char source such as '"""' -> each char escaped individually
                 parts = re.findall(r"\\(.)", b)
                 ok = "".join(emap.get(x, "?") for x in parts) == a and len(b) == 2 * len(a)
-            rep.ob("C03.b-escape-tables-agree", mod, q, "%s: %r -> %r" % (form, a, b), ok,
+            rep.ob(RULE, mod, q, "%s: %r -> %r" % (form, a, b), ok,
                    "decoded back to %r by the reader table" % a if ok else "the reader does not decode %r back to %r" % (b, a), node=node)
 
     ntw = repo.mod("rdflib.plugins.serializers.nt")
@@ -199,7 +202,7 @@ def run(repo: Repo, rep: Report) -> None:
     check_chain(term, "Literal._quote_encode", seq, {"\\", "\r", '"""'}, 'Turtle """..."""', sel)
     # trailing quote handling: a value ending in a quote must not run into the closing delimiter
     tail = any(isinstance(n, ast.If) and "[-1]" in norm(n.test) and '"' in norm(n.test) for s in sel.body for n in ast.walk(s))
-    rep.ob("C03.b-escape-tables-agree", term, "Literal._quote_encode", 'Turtle """...""": trailing quote escaped', tail,
+    rep.ob(RULE, term, "Literal._quote_encode", 'Turtle """...""": trailing quote escaped', tail,
            "a value ending in a double quote is escaped before the closing delimiter" if tail else
            'a value ending in " would merge with the closing """', node=sel)
 
